@@ -95,6 +95,10 @@ def check_case(root, spec, pps, excl, cfg, delivery, how, out, armed):
                 if delivery == 'inline':
                     call_pats = ([call_pats] if isinstance(call_pats, str) else call_pats) + ['!' + e for e in etexts]
                     cfl |= G.NEGATE
+                elif delivery == 'inline-first':
+                    # the exclusions stand before the first inclusion: the position of an exclusion in the list means nothing
+                    call_pats = ['!' + e for e in etexts] + ([call_pats] if isinstance(call_pats, str) else call_pats)
+                    cfl |= G.NEGATE
                 else:
                     kw['exclude'] = etexts
             if how == 'pathlib':
@@ -150,7 +154,7 @@ def run_union(desc):
 
     @seed(desc['seed'])
     @util.hyp_settings(desc['n'], shrink=False)
-    @given(st.one_of(st.sampled_from(cat), T.st_tree(False)), st.data(), FC.st_cfg(CFG_KEYS), st.sampled_from(['exclude', 'inline']),
+    @given(st.one_of(st.sampled_from(cat), T.st_tree(False)), st.data(), FC.st_cfg(CFG_KEYS), st.sampled_from(['exclude', 'inline', 'inline-first']),
            st.sampled_from(['list', 'list', 'brace', 'split', 'pathlib']))
     def test(spec, data, cfg, delivery, how):
         names = sorted({os.path.basename(e[1]) for e in spec} | {'.', 'zz'})
